@@ -29,6 +29,9 @@ type meta struct {
 
 	creation int64 // used for the meta process Uptime method only
 	state    int32
+
+	// reason Start() returned with. Set before the state is switched to terminated
+	startReason error
 }
 
 func (m *meta) ID() gen.Alias {
@@ -124,13 +127,20 @@ func (m *meta) start() {
 
 	reason := m.behavior.Start()
 	// meta process terminated
+	if reason == nil {
+		reason = gen.TerminateReasonNormal
+	}
+	m.startReason = reason
 	lib.VerifPoint("meta.start.term", m.id.ID[0])
 	old := atomic.SwapInt32(&m.state, int32(gen.MetaStateTerminated))
-	if old != int32(gen.MetaStateTerminated) {
+	switch old {
+	case int32(gen.MetaStateTerminated):
+		// already terminated
+	case int32(gen.MetaStateRunning):
+		// the mailbox goroutine is executing a callback. It finalizes the termination
+		// once that callback returns (callbacks of a meta process never overlap)
+	default:
 		m.p.node.aliases.Delete(m.id)
-		if reason == nil {
-			reason = gen.TerminateReasonNormal
-		}
 		m.p.node.RouteTerminateAlias(m.id, reason)
 		m.behavior.Terminate(reason)
 	}
@@ -148,6 +158,7 @@ func (m *meta) handle() {
 
 	go func() {
 		var message *gen.MailboxMessage
+		var finalizing bool // this goroutine has started to finalize the termination
 
 		if lib.Recover() {
 			defer func() {
@@ -162,6 +173,12 @@ func (m *meta) handle() {
 						reason = gen.TerminateReasonPanic
 						m.p.node.RouteTerminateAlias(m.id, reason)
 						m.behavior.Terminate(reason)
+					} else if finalizing == false {
+						// the main loop (Start) stopped during the callback that
+						// panicked and left the finalization to this goroutine
+						m.p.node.aliases.Delete(m.id)
+						m.p.node.RouteTerminateAlias(m.id, m.startReason)
+						m.behavior.Terminate(m.startReason)
 					}
 				}
 			}()
@@ -248,17 +265,29 @@ func (m *meta) handle() {
 			// terminated
 			lib.VerifPoint("meta.term", m.id.ID[0])
 			old := atomic.SwapInt32(&m.state, int32(gen.MetaStateTerminated))
+			finalizing = true
 			if old != int32(gen.MetaStateTerminated) {
 				m.p.node.aliases.Delete(m.id)
 				m.p.node.RouteTerminateAlias(m.id, reason)
 				m.behavior.Terminate(reason)
+			} else {
+				// the main loop (Start) stopped during this callback and left
+				// the finalization to this goroutine
+				m.p.node.aliases.Delete(m.id)
+				m.p.node.RouteTerminateAlias(m.id, m.startReason)
+				m.behavior.Terminate(m.startReason)
 			}
 			return
 		}
 
 		lib.VerifPoint("meta.tosleep", m.id.ID[0])
 		if atomic.CompareAndSwapInt32(&m.state, int32(gen.MetaStateRunning), int32(gen.MetaStateSleep)) == false {
-			// terminated. seems the main loop is stopped. do nothing.
+			// terminated: the main loop (Start) has stopped while this goroutine
+			// was handling the mailbox, so the termination is finalized here.
+			finalizing = true
+			m.p.node.aliases.Delete(m.id)
+			m.p.node.RouteTerminateAlias(m.id, m.startReason)
+			m.behavior.Terminate(m.startReason)
 			return
 		}
 
